@@ -258,7 +258,7 @@ func runC19Row(rep *sim.Reporter, row c19Row, now time.Time) bool {
 			if has && entry.Etag == `"E-fresh"` {
 				viol(fmt.Sprintf("non-200-cached:%d", row.Status), fmt.Sprintf("the body of a %d answer was stored in the ETag cache", row.Status))
 			}
-		} else if row.ETagHdr && row.Cache != "expired" { // (the "expired" set-up gives every entry a 1 ns life)
+		} else if row.ETagHdr && row.Cache != "expired" && bodyDecodable { // (the "expired" set-up gives every entry a 1 ns life; whether a rejected body is kept is not prescribed)
 			if !has || entry.Etag != `"E-fresh"` || string(entry.Response) != served {
 				viol("200-not-cached", "a 200 answer carrying an ETag was not cached with exactly that ETag and body")
 			}
@@ -470,3 +470,73 @@ func ptrI(b *int32) string {
 }
 
 var _ = reflect.DeepEqual
+
+
+// Two calls about the same parent: a 200 answer (with ETag) whose body is well-formed, has an
+// unknown field or a duplicate field, then a 304/412 answer to whatever If-None-Match the second
+// call sends. Strict mode rejects the malformed body both times - a replay from the cache is still
+// "a response with unknown or duplicate fields".
+func TestVerif_C19_Replay(t *testing.T) {
+	rep := sim.R()
+	now := time.Date(2026, 1, 1, 12, 0, 0, 0, time.UTC)
+	for _, body := range []string{"valid", "unknown", "duplicate"} {
+		for _, strict := range []bool{false, true} {
+			for _, second := range []int{304, 412} {
+				id := fmt.Sprintf("c19-replay-%s-strict%v-%d", body, strict, second)
+				if !sim.WantCase(id) {
+					continue
+				}
+				rep.Begin("C19", id)
+				viol := func(sig, detail string) {
+					rep.Violation("C19", id, sig, detail, map[string]interface{}{"body": body, "strict": strict, "second": second})
+				}
+				var served string
+				switch body {
+				case "valid":
+					served = bodyFor("fresh")
+				case "unknown":
+					served = `{"status":{"servedFor":"fresh"},"children":[],"bogusField":true}`
+				case "duplicate":
+					served = `{"status":{"servedFor":"old"},"status":{"servedFor":"fresh"},"children":[]}`
+				}
+				etag := &webhookExecutorEtag{etagCache: cache.New[eTagKey, *eTagEntry](0, 0)}
+				calls := 0
+				var inm []string
+				client := &scriptedClient{fn: func(r *http.Request, _ []byte) (*http.Response, error) {
+					calls++
+					inm = append(inm, r.Header.Get("If-None-Match"))
+					if calls == 1 {
+						return httpResp(200, map[string]string{"ETag": `"E-1"`}, served), nil
+					}
+					return httpResp(second, map[string]string{"ETag": `"E-1"`}, ""), nil
+				}}
+				mode := v1alpha1.ResponseUnmarshallModeLoose
+				if strict {
+					mode = v1alpha1.ResponseUnmarshallModeStrict
+				}
+				ex := newWebhookExecutor(client, "http://hook.sim/x", common.SyncHook, &mode, etag, func() time.Time { return now })
+				req := request("p", "c1")
+				wantOK := body == "valid" || !strict
+				for call := 1; call <= 3; call++ {
+					var resp compositev1.CompositeHookResponse
+					var err error
+					if stack, p := sim.Guard(func() { err = ex.Call(req, &resp) }); p {
+						viol("panic:"+sim.PanicSite(stack), "Call panicked: "+stack)
+						break
+					}
+					switch {
+					case wantOK && call == 1 && err != nil:
+						viol(fmt.Sprintf("well-formed-200-rejected:%s:strict=%v", body, strict), fmt.Sprintf("call 1: %v", err))
+					case wantOK && call > 1 && err != nil && inm[call-1] != "":
+						viol(fmt.Sprintf("valid-304-rejected:replay:%s:strict=%v", body, strict), fmt.Sprintf("call %d sent If-None-Match %s and got %d, yet failed: %v", call, inm[call-1], second, err))
+					case wantOK && err == nil && servedFor(&resp) != "fresh":
+						viol("wrong-body-used:replay", fmt.Sprintf("call %d decoded a response for %q", call, servedFor(&resp)))
+					case !wantOK && err == nil:
+						viol(fmt.Sprintf("bad-body-accepted:replayed-from-cache:%s:call%d:%d", body, call, second), fmt.Sprintf("strict mode: call %d (If-None-Match %q, answer %d) accepted a body with a %s field: %+v", call, inm[call-1], map[bool]int{true: 200, false: second}[call == 1], body, resp.Status))
+					}
+				}
+				rep.Case("C19", id, calls >= 2, id, map[string]interface{}{"calls": calls, "ifNoneMatch": inm})
+			}
+		}
+	}
+}
